@@ -38,6 +38,8 @@ ID_KEYS = {"uuid", "id"}
 def is_empty_container(t) -> bool:
     if t[0] in ("list", "dict", "tuple", "set") and len(t[1]) == 0:
         return True
+    if t[0] == "alloc":
+        return True
     if t[0] == "call" and t[1] in (("builtin", "list"), ("builtin", "dict"), ("builtin", "tuple"), ("builtin", "set")) \
             and not t[2] and not t[3]:
         return True
